@@ -802,6 +802,8 @@ def merge_paths(ck, fn, sig):
         # accumulate only under col_ind equality of the two cursors
         eq_blocks = set()
         bound_ok_blocks = set()
+        xend_blocks = set()
+        colrel = {}
         for b in R:
             blk = cfg.blocks[b]
             if blk.get("term") == "IfStmt" and blk.get("cond") is not None and len(blk.get("succ", [])) == 2:
@@ -825,21 +827,103 @@ def merge_paths(ck, fn, sig):
                         t = blk["succ"][1 if cn["op"] == ">=" else 0]
                         if predR.get(t) == [b]:
                             bound_ok_blocks.add(t)
+                        t2 = blk["succ"][0 if cn["op"] == ">=" else 1]
+                        if t2 in R and predR.get(t2) == [b]:
+                            xend_blocks.add(t2)          # X cursor has reached the end of its row: no slot can follow
+                # relation between the column of the X cursor and the column of the B cursor
+                if cn.get("k") == "Bin" and cn.get("op") in ("==", "!=", "<", ">", "<=", ">="):
+                    sd = []
+                    for q in (cn["lhs"], cn["rhs"]):
+                        q = strip(q)
+                        a = accessor(loc, q["b"]) if q.get("k") == "Index" else None
+                        sd.append((a["obj"], strip(q["idx"]).get("d")) if a and a["name"] == "col_ind" else None)
+                    if None not in sd and sorted(sd, key=str) == sorted([("this", xcur), (bobj, bcur)], key=str):
+                        op = cn["op"] if sd[0] == ("this", xcur) else {"<": ">", ">": "<", "<=": ">=", ">=": "<=", "==": "==", "!=": "!="}[cn["op"]]
+                        neg = {"<": ">=", ">": "<=", "<=": ">", ">=": "<", "==": "!=", "!=": "=="}[op]
+                        for k_, rel_ in ((0, op), (1, neg)):
+                            t3 = blk["succ"][k_]
+                            if t3 in R and predR.get(t3) == [b]:
+                                colrel.setdefault(rel_, set()).add(t3)
         if not (dom[ab] & eq_blocks):
             problems.append("line %s: the accumulate statement is not control dependent on col_ind(this)[X cursor] == col_ind(%s)[B cursor]" % (an.get("l"), bobj))
+        def by_one(n, d):
+            """n advances the cursor d by exactly one"""
+            if n.get("k") == "Un" and n.get("op") == "++":
+                return True
+            if n.get("k") == "Assign":
+                r = strip(n["rhs"])
+                if n.get("op") == "+=" and r.get("k") == "Int" and int(r["v"]) == 1:
+                    return True
+                if n.get("op") == "=" and r.get("k") == "Bin" and r.get("op") == "+":
+                    x1, x2 = strip(r["lhs"]), strip(r["rhs"])
+                    if x2.get("k") == "Ref":
+                        x1, x2 = x2, x1
+                    return x1.get("k") == "Ref" and x1.get("d") == d and x2.get("k") == "Int" and int(x2["v"]) == 1
+            return False
         for b, pos, n in adv:
             after_acc = (b == ab and pos > apos) or (ab in dom[b] and ab != b)
             if not (after_acc or guarded(b)):
                 problems.append("line %s: `%s` skips an entry of %s that was not accumulated and allow_incomplete is not known to be true on this path (silent drop)" % (n.get("l"), render(n), bobj))
+            if not by_one(n, bcur):
+                problems.append("line %s: `%s` moves the B cursor by something other than one entry: entries of %s are passed over without being examined (only the ONE entry without a slot may be dropped)" % (n.get("l"), render(n), bobj))
+        # at most one B advance per iteration
+        advs_in = {}
+        for b, pos, n in adv:
+            advs_in[b] = advs_in.get(b, 0) + 1
+        memo_cnt = {}
+        def maxadv(b, stack=()):
+            if b in memo_cnt:
+                return memo_cnt[b]
+            if b in stack:
+                raise Unknown("cycle inside the merge loop body")
+            v = advs_in.get(b, 0) + max([maxadv(s2, stack + (b,)) for s2 in succR[b]] or [0])
+            memo_cnt[b] = v
+            return v
+        if maxadv(body0) > 1:
+            problems.append("some path through one iteration advances the B cursor %d times: an entry of %s is passed over without being compared" % (maxadv(body0), bobj))
+        # on the allow_incomplete edge the only permitted effect is dropping that one entry
+        advid = {n.get("i") for _, _, n in adv}
+        for b in R:
+            if not guarded(b) or cfg.blocks[b].get("noreturn"):
+                continue
+            for e in cfg.blocks[b]["el"]:
+                n = fn.by_id(e)
+                if n is None or n.get("i") in advid:
+                    continue
+                if n.get("k") in ("Un", "Assign", "Call", "MCall", "OpCall"):
+                    if any((n.get("i") in {y.get("i") for y in walk(z)}) for _, _, z in adv):
+                        continue
+                    problems.append("line %s: `%s` on the allow_incomplete path: the only permitted effect there is `++%s` (drop the one entry without a slot)" % (n.get("l"), render(n)[:60], bname))
+        # leaving the loop early is permitted only when no slot can follow: X cursor at the end of its row
         for b in R:
             blk = cfg.blocks[b]
             for s in cfg.succ.get(b, []):
-                if s == X and not guarded(b):
-                    tn = fn.by_id(blk["term_id"]) if blk.get("term_id") is not None else None
-                    ln = tn.get("l") if tn else ((cfg.block_lines([b]) or [None])[-1])
-                    problems.append("line %s: `break` leaves the merge loop with entries of %s left and allow_incomplete not known to be true (silent drop)" % (ln, bobj))
-                if s == cfg.exit and not blk.get("noreturn") and not guarded(b):
-                    problems.append("a return inside the merge loop is reachable without allow_incomplete")
+                early = (s == X) or (s == cfg.exit and not blk.get("noreturn"))
+                if not early:
+                    continue
+                tn = fn.by_id(blk["term_id"]) if blk.get("term_id") is not None else None
+                ln = tn.get("l") if tn else ((cfg.block_lines([b]) or [None])[-1])
+                what = "`break`" if s == X else "`return`"
+                if not guarded(b):
+                    problems.append("line %s: %s leaves the merge loop with entries of %s left and allow_incomplete not known to be true (silent drop)" % (ln, what, bobj))
+                if not (dom[b] & xend_blocks):
+                    problems.append("line %s: %s abandons the rest of row %s although the X cursor is not known to be at the end of its row (X cursor >= row_ptr(this)[i+1] does not control this exit): later entries of %s that do have a slot in X lose their contribution" % (ln, what, bobj, bobj))
+        # the X cursor passes over a slot only after it was served or when its column is smaller than the current B column
+        for b in R:
+            for pos, e in enumerate(cfg.blocks[b]["el"]):
+                n = fn.by_id(e)
+                if n is None or xcur is None:
+                    continue
+                isx = (n.get("k") == "Un" and n.get("op") in ("++", "--") and strip(n["e"]).get("d") == xcur) or \
+                      (n.get("k") == "Assign" and strip(n["lhs"]).get("k") == "Ref" and strip(n["lhs"]).get("d") == xcur)
+                if not isx:
+                    continue
+                after_acc = (b == ab and pos > apos) or (ab in dom[b] and ab != b)
+                less = bool(dom[b] & colrel.get("<", set())) or (bool(dom[b] & colrel.get("<=", set())) and bool(dom[b] & colrel.get("!=", set())))
+                if not (after_acc or less):
+                    problems.append("line %s: `%s` passes over a slot of X that was neither served nor has a smaller column than the current entry of %s (a later entry of %s may belong there)" % (n.get("l"), render(n), bobj, bobj))
+                if not by_one(n, xcur):
+                    problems.append("line %s: `%s` moves the X cursor by something other than one slot" % (n.get("l"), render(n)))
         # every dereference of the X cursor is dominated by its bound check
         for b in R:
             ids = list(cfg.blocks[b]["el"]) + ([cfg.blocks[b]["cond"]] if cfg.blocks[b].get("cond") is not None else [])
@@ -852,7 +936,7 @@ def merge_paths(ck, fn, sig):
                             problems.append("line %s: %s dereferences the X cursor without a dominating check against row_ptr(this)[i+1] (runs into the next row of X)" % (y.get("l"), render(y)))
         problems = sorted(set(problems))
         ck.ob("E7.no-silent-drop", keybase, not problems,
-              "; ".join(problems) if problems else "B cursor `%s` advances %d times: after the accumulate statement or under allow_incomplete; breaks guarded; other exits abort; X cursor bounds-checked" % (bname, len(adv)),
+              "; ".join(problems) if problems else "B cursor `%s` advances at %d places, by one, at most once per iteration: after the accumulate statement or as the only effect of the allow_incomplete edge; early exit only with the X cursor at its row end and allow_incomplete; other exits abort; X cursor bounds-checked and only passes served or smaller-column slots" % (bname, len(adv)),
               fn.file, w.get("l"), sample={"advances": [render(n) + "@%s" % n.get("l") for _, _, n in adv], "accumulate": render(an)[:100]})
         # normalised cursor logic for the sibling note
         names = {}
@@ -898,7 +982,7 @@ def run(tier):
     ck.rule("E1.dispatch", "Arch wrappers of the matrix kernels forward each parameter to the like-named slot of the generic implementation of the same operation, on every path.", 46)
     ck.rule("E2.matrix-kernel", "generic kernels ScaleRows/ScaleCols/Lumping/RowNorm/Diagonal (csr and bcsr): outer loop over [0,rows), entry loop over [row_ptr[row],row_ptr[row+1]), every array subscripted by the index kind of its role (entry, row, col_ind[entry]; blocked affine forms), per-row results defined outside the entry loop (empty rows), reductions only accumulate inside the entry loop, per-entry term and result equal the documented formula. Broken for: rectangular matrices, empty rows, rows with more than one entry/block.", 46)
     ck.rule("E2.merge-kinds", "add_double_mat_product / add_mat_mat_product (CSR, BCSR): every subscript of row_ptr/col_ind/val/elements of X, D, A, B has the index kind the array needs (Row/NZ/Col/Dim of that object); kinds of different objects are equal only through the function's own XASSERTs; compared column indices live in the same space; cursors are bounded by the end of their own segment. Broken for: products of non-square factors.", 86)
-    ck.rule("E7.no-silent-drop", "merge loops: an entry of the right factor B is passed over only after the accumulate statement X_ij += w*B_lj ran in the same iteration (itself control dependent on equal column indices, reading B at the cursor) or on the true edge of allow_incomplete; break likewise; every other way out reaches XABORTM; the X cursor is checked against the end of its row before it is dereferenced. Broken for: output patterns poorer than the product pattern (silently wrong values instead of the documented abort), rows of X shorter than rows of B.", 7)
+    ck.rule("E7.no-silent-drop", "merge loops: an entry of the right factor B is passed over only after the accumulate statement X_ij += w*B_lj ran in the same iteration (itself control dependent on equal column indices, reading B at the cursor) or on the true edge of allow_incomplete, where advancing the B cursor by exactly one is the only permitted effect (at most one advance per iteration); the loop is left early only under allow_incomplete AND with the X cursor at the end of its row (no slot can follow); every other way out reaches XABORTM; the X cursor is checked against the end of its row before it is dereferenced and passes a slot only after serving it or when its column is smaller than the current B column. Broken for: output patterns poorer than the product pattern (silently wrong values instead of the documented abort), rows of X shorter than rows of B.", 7)
     ck.rule("E0.instantiable", "the matrix algebra members instantiate for CSR and BCSR (square and rectangular blocks)", 3)
 
     extra = ("-DVERIF_THOROUGH",) if tier == "thorough" else ()
